@@ -166,3 +166,52 @@ class Dos:
 
 register(Obligation(name="C05.get_dos.k_weighted_sum_of_unit_gaussians", prop=PROP, engine="Z", functions=["eminus.tools:get_dos"], run=Dos(),
                     assumes=("engineZ", "z3", "reals"), doc="get_dos(e) = sum_k wk[k] sum_i gauss_width(e - eps[k, spin, i]): the DOS integrates to the k-weighted number of states"))
+
+
+# ------------------------------------------------------------------------------------------------
+# bounded native: the density of states integrates to the k-weighted number of states (one and two spin channels)
+# ------------------------------------------------------------------------------------------------
+
+
+class DosIntegralNative:
+    """BOUNDED: get_dos on synthetic spectra (Nk x Nspin x Nstate = 3 x {1, 2} x 4, unequal weights, both spin selections, three widths): the trapezoidal
+    integral of the returned curve over the returned window is sum_k wk * Nstate, the window contains every state with a margin, every value is >= 0."""
+
+    def problems(self):
+        import eminus
+        from eminus.tools import get_dos
+
+        eminus.config.backend = "numpy"
+        rng = np.random.default_rng(4)
+        bad = []
+        wk = np.array([0.2, 0.3, 0.5])
+        for Nspin in (1, 2):
+            eps = rng.uniform(-1.0, 0.5, (3, Nspin, 4))
+            for spin in range(Nspin):
+                for width in (0.02, 0.1, 0.3):
+                    e, d = get_dos(eps, wk, spin=spin, npts=4000, width=width)
+                    e, d = np.asarray(e, float), np.asarray(d, float)
+                    integral = float(np.sum((d[1:] + d[:-1]) / 2 * np.diff(e)))
+                    want = float(np.sum(wk) * 4)
+                    if abs(integral - want) > 1e-4 * want or d.min() < 0 or e[0] > eps[:, spin].min() - 4 * width or e[-1] < eps[:, spin].max() + 4 * width:
+                        bad.append(dict(Nspin=Nspin, spin=spin, width=width, integral=integral, k_weighted_number_of_states=want, window=[float(e[0]), float(e[-1])]))
+        return bad
+
+    def __call__(self, ob, tier, seed):
+        from pycv.framework import BOUNDED_OK
+
+        try:
+            bad = self.problems()
+        except Exception as e:  # noqa: BLE001
+            bad = [dict(raised=f"{type(e).__name__}: {e}")]
+        if bad:
+            return Result(REFUTED, backend="native", witness=bad[0], replayed=True, replay_info=dict(failing=bad[:5]), detail=f"get_dos: {bad[0]}")
+        return Result(BOUNDED_OK, backend="native", detail="bounded: 9 synthetic spectra (Nspin 1 and 2, both channels, three widths): the curve integrates to the k-weighted number of states")
+
+    def replay(self, wit):
+        bad = self.problems()
+        return bool(bad), dict(failing=bad[:5])
+
+
+register(Obligation(name="C05.get_dos.native_integral", prop=PROP, engine="B", bounded=True, run=DosIntegralNative(), functions=["eminus.tools:get_dos"],
+                    doc="BOUNDED: the density of states of synthetic spectra integrates to the k-weighted number of states for one and two spin channels"))
